@@ -20,5 +20,58 @@ for b64 in (1, 0):
                               encoded=(["hwloc_export_obj_userdata_base64"] if b64 else ["hwloc_export_obj_userdata", "hwloc__xml_export_check_buffer"]) + ["hwloc__export_obj_userdata", "hwloc__xml_import_userdata"] + (B64 if b64 else []), tiers=tiers,
                               stubs=COMMON["stubs"] + ["XML backend: a recording export backend and a replaying import backend obeying the get_content contract of private/xml.h"],
                               bounds="userdata of %d %s bytes, %s" % (l, "arbitrary" if b64 else "printable", "named" if named else "anonymous"), cost=20))
+# ---- the common XML code above the text layer, run against an in-memory element tree (vp_xmltree.h) -------------------------------
+import os as _os, sys as _sys
+_sys.path.insert(0, _os.path.dirname(__file__))
+from _seed import seed_uw as _seed_uw
+XT_UW = _seed_uw(**{"strcmp.0": 48, "strlen.0": 40, "strdup.0": 40, "strcpy.0": 40, "realloc.0": 200, "strcasecmp.0": 24, "strncmp.0": 24, "strncasecmp.0": 24, "strchr.0": 40,
+                    "tt_strndup.0": 64, "tt_strdup.0": 64, "tt_get.0": 22, "tt_bind.0": 26, "tt_of.0": 26, "tt_equal.0": 22, "tt_equal.1": 20, "tt_rewind.0": 20, "memcmp.0": 64,
+                    "hwloc__xml_export_safestrdup.0": 40})
+XT = dict(src="C05_xmltree.c", env=["vp_alloc.c", "vp_libc.c"], units=["hwloc/bitmap.c", "hwloc/traversal.c", "hwloc/distances.c", "hwloc/memattrs.c", "hwloc/cpukinds.c"], unwind=24, checks="safety", object_bits=13, timeout=1700,
+          unwindset=XT_UW, fs_array=256, typed_realloc=True,
+          stubs=["XML back end: an in-memory element tree with the cursor semantics of the built-in parser (find_child/close_child, get_content length contract, close_tag refuses unconsumed children or content)",
+                 "seed environment stubs of vp_seed.h", "newlocale/uselocale/freelocale, getenv, component registry: no-ops"],
+          assumptions=["allocation never fails"])
+XT_ENC = ["hwloc__xml_export_topology", "hwloc__xml_v2export_object", "hwloc__xml_export_object_contents", "hwloc__xml_export_info_attr", "hwloc__xml_export_infos", "hwloc_look_xml", "hwloc__xml_import_object", "hwloc__xml_import_object_attr", "hwloc__xml_import_obj_info", "hwloc___xml_import_info", "hwloc__xml_import_pagetype",
+          "hwloc_insert_object_by_parent", "hwloc_discover", "hwloc_bitmap_asprintf", "hwloc_bitmap_sscanf", "hwloc_type_sscanf"]
+for nm, d, extra, tiers in (("xml_roundtrip_tree", {"FIX": 0}, [], {"quick": {}, "thorough": {}}),
+                            ("xml_roundtrip_fx1", {"FIX": 1, "FIXM": 1}, [], {"quick": {}, "thorough": {}}),
+                            ("xml_roundtrip_fx2", {"FIX": 1, "FIXM": 2}, [], {"quick": {}, "thorough": {}}),
+                            ("xml_roundtrip_fx4", {"FIX": 1, "FIXM": 4}, [], {"quick": {}, "thorough": {}}),
+                            ("xml_roundtrip_fx8", {"FIX": 1, "FIXM": 8}, [], {"quick": {}, "thorough": {}}),
+                            ("xml_roundtrip_fx16", {"FIX": 1, "FIXM": 16}, [], {"quick": {}, "thorough": {}}),
+                            ("xml_roundtrip_fx32", {"FIX": 1, "FIXM": 32}, [], {"quick": {}, "thorough": {}}),
+                            ("xml_roundtrip_fx64", {"FIX": 1, "FIXM": 64}, [], {"quick": {}, "thorough": {}}),
+                            ("xml_roundtrip_rich", {"FIX": 1}, [], {"thorough": {}}),
+                            ("xml_roundtrip_rich_v2", {"FIX": 1, "XFLAGS": "1UL"}, [], {"thorough": {}}),
+                            ("xml_roundtrip_distances", {"FIX": 0, "WITH_DIST": 2}, ["hwloc___xml_v2export_distances", "hwloc__xml_v2export_distances", "hwloc__xml_import_distances", "hwloc_internal_distances_add_by_index", "hwloc_internal_distances_refresh"], {"quick": {}, "thorough": {}}),
+                            ("xml_roundtrip_memattrs", {"FIX": 0, "WITH_MEMATTR": 1}, ["hwloc__xml_export_memattrs", "hwloc__xml_export_memattr_target", "hwloc__xml_import_memattr", "hwloc__xml_import_memattr_value", "hwloc_internal_memattr_set_value"], {"quick": {}, "thorough": {}}),
+                            ("xml_roundtrip_cpukinds", {"FIX": 0, "WITH_CPUKINDS": 1}, ["hwloc__xml_export_cpukinds", "hwloc__xml_import_cpukind", "hwloc_internal_cpukinds_register", "hwloc_internal_cpukinds_rank"], {"quick": {}, "thorough": {}})):
+    HARNESSES.append(dict(XT, name=nm, entry="h_xml_roundtrip", defines=d, encoded=XT_ENC + extra, tiers=tiers, cost=120,
+                          bounds="one fixture topology built by the real core (%s); the run is concrete: CBMC interprets export -> element tree -> import inside the real discovery pipeline -> comparison -> re-export, checking every access" % ("9 objects" if d.get("FIX") == 0 else "16 objects: L2, Group(dont_merge), memory-side cache, page types, bridge/PCI/OS device, Misc, names, subtype, object and topology infos")))
+XI = dict(XT, unwind=12)
+XI["unwindset"] = dict(XT_UW, **dict({"h_import_distances.%d" % k: 18 for k in range(6)}, **{"dist_case.0": 5, "dist_case.1": 5, "dist_case.2": 5, "dist_case.3": 5, "dist_case.4": 17, "dist_case.5": 17}))
+C06_EXTRA = []      # the crafted-input harnesses belong to C06 (specs/C06.py takes them from here)
+def _sliced(base, n, quick_slices=None):
+    for k in range(n):
+        h = dict(base); h["name"] = "%s_s%d" % (base["name"], k)
+        h["tiers"] = {t: dict(o, defines=dict(o.get("defines", {}), NSLICE=n, SLICE=k)) for t, o in base["tiers"].items()}
+        h["bounds"] = base["bounds"] + " [slice %d of %d of the enumerated runs]" % (k, n)
+        C06_EXTRA.append(h)
+for het in (0, 1):
+    for ver, ns in ((3, 6), (2, 2)):
+        _sliced(dict(XI, name="xml_import_distances%s_v%d" % ("_hetero" if het else "", ver), entry="h_import_distances", checks="safety+", encoded=["hwloc__xml_import_distances", "hwloc___xml_import_info", "hwloc_internal_distances_add_by_index", "hwloc_type_sscanf"],
+                    tiers={"quick": {"defines": {"HET": het, "DVER": ver, "DSEQ": 2, "DNB": 2}}, "thorough": {"defines": {"HET": het, "DVER": ver, "DSEQ": 3 if ver == 3 else 2, "DNB": 2}, "timeout": 5000}}, cost=100,
+                    bounds="<distances2%s> of a version-%d document with nbobjs=2: %s all 16 subsets of {name, latency kind, indexing, type} on the complete document; concrete runs selected by symbolic inputs; reference: the documented format" % ("hetero" if het else "", ver, "every sequence of up to 2 (thorough: 3) children over {indexes with 1/2/3 entries, u64values with 1/2/4 entries, info}, and" if ver == 3 else "")), ns)
+_sliced(dict(XI, name="xml_import_cpukind", entry="h_import_cpukind", checks="safety+", encoded=["hwloc__xml_import_cpukind", "hwloc___xml_import_info", "hwloc_internal_cpukinds_register", "hwloc__add_info", "hwloc__free_infos", "hwloc_bitmap_sscanf"],
+             unwindset=dict(XT_UW, **{"h_import_cpukind.%d" % k: 7 for k in range(6)}), tiers={"quick": {}, "thorough": {}}, cost=60,
+             bounds="<cpukind> elements: cpuset in {valid, empty, unparsable, missing, second kind} x forced_efficiency in {none, 5, -1} x {plain, unknown attribute, unknown child, info without value, complete info} x NO_CPUKINDS, optionally after a first registered kind; concrete runs selected by symbolic inputs (ownership of the cpuset and of the info array on every path: no leak into a double free)"), 8)
+_sliced(dict(XI, name="xml_import_memattr", entry="h_import_memattr", checks="safety+", encoded=["hwloc__xml_import_memattr", "hwloc__xml_import_memattr_value", "hwloc___xml_import_info", "hwloc_memattr_register", "hwloc_memattr_get_by_name", "hwloc_internal_memattr_set_value", "hwloc__memattr_get_target", "hwloc__memattr_target_get_initiator"],
+             unwindset=dict(XT_UW, **{"h_import_memattr.%d" % k: 12 for k in range(6)}), tiers={"quick": {}, "thorough": {}}, cost=80,
+             bounds="<memattr> elements: name in {built-in Bandwidth, new, missing} x flags in {5, 1, 3, missing} x 10 kinds of <memattr_value> (cpuset/object/no initiator, missing or unknown target type, missing value, unknown attribute, unknown or incomplete initiator) x NO_MEMATTRS, plus {unknown attribute, unknown child, info child}; concrete runs selected by symbolic inputs on a fresh attribute table"), 8)
+for lo in range(0, 30, 3):
+    C06_EXTRA.append(dict(XT, name="xml_documents_%02d" % lo, entry="h_xml_documents", defines={"DOC_LO": lo, "DOC_HI": lo + 2}, encoded=["hwloc_look_xml", "hwloc__xml_import_object", "hwloc__xml_import_object_attr", "hwloc__xml_import_obj_info", "hwloc__xml_import_pagetype", "hwloc_discover", "hwloc_topology_clear", "hwloc_topology_setup_defaults", "hwloc_filter_levels_keep_structure"],
+                          unwindset=dict(XT_UW, **{"h_xml_documents.0": 5}), tiers={"quick": {}, "thorough": {}}, cost=90,
+                          bounds="crafted documents %d..%d of 30 (a 4-object base document with one defect or one unusual but legal feature each: PU/NUMA set mismatches, missing or misplaced sets, illegal parent/child kinds, bad cache depth, unknown types/tags/attributes, missing root nodeset, out-of-order children, future types, mergeable Group, page types, incomplete distances) through the real hwloc_look_xml inside the real discovery pipeline; on success the independent C01 checker, on failure the clean-up of hwloc_topology_load" % (lo, lo + 2)))
 OUTSIDE = ["export -> import of whole topologies (tree, sets, attributes, distances, memory attributes, CPU kinds): the text is thousands of characters long, far beyond what bounded symbolic execution of the printers and tokenizers concludes on",
            "libxml2 backend (foreign library code), file I/O, v2 format, byte-identical re-export"]
